@@ -309,14 +309,38 @@ def a9(F, rep):
             for o in r["ops"]:
                 p = op_place(o)
                 hops = 0
-                while p is not None and "DecompressResult" in b.local_ty(p["l"]) and hops < 8:
+                while p is not None and "DecompressResult" in b.local_ty(p["l"]) and hops < 12:
                     hops += 1
                     if b.local_ty(p["l"]).startswith("preflate_rs::preflate_container::DecompressResult"):
                         roots.add(p["l"])             # every local on the move chain that *is* the result value
                     d = b.single_def(p["l"])
+                    if d is None:
+                        ds0 = b.defs(p["l"])
+                        if ds0 and all(x[2] == "assign" and x[3].get("k") == "use" and op_place(x[3]["op"]) == op_place(ds0[0][3]["op"]) for x in ds0 if x[2] == "assign") and all(x[2] == "assign" for x in ds0):
+                            d = ds0[0]                  # copied from one and the same place on every path
+                    if d is None:
+                        # a result that is Some(..)/Ok(..) in one place and None / an error everywhere else
+                        ds0 = b.defs(p["l"])
+                        hit = [x for x in ds0 if x[2] == "assign" and x[3].get("k") == "agg" and x[3].get("vname") in ("Some", "Ok")]
+                        rest = [x for x in ds0 if x not in hit]
+                        if len(hit) == 1 and all((x[2] == "assign" and x[3].get("k") == "agg" and x[3].get("vname") in ("None", "Err")) or
+                                                 (x[2] == "call" and callee_def(x[3]).endswith("from_residual")) or
+                                                 (x[2] == "assign" and x[3].get("k") == "use" and op_place(x[3]["op"]) is not None) for x in rest):
+                            d = hit[0]
+                    if d and d[2] == "assign" and d[3]["k"] == "agg" and p["p"]:
+                        # a component taken out of a tuple / Some(..) / Ok(..) built in one place: continue with that component
+                        fs = [e["f"] for e in p["p"] if isinstance(e, dict) and "f" in e]
+                        if fs and fs[0] < len(d[3].get("ops", [])):
+                            q = op_place(d[3]["ops"][fs[0]])
+                            rest = fs[1:]
+                            p = {"l": q["l"], "p": q["p"] + [{"f": x} for x in rest]} if q is not None else None
+                            continue
+                        break
                     if not d or d[2] != "assign" or d[3]["k"] != "use":
                         break
-                    p = op_place(d[3]["op"])
+                    q = op_place(d[3]["op"])
+                    # the projections still to be resolved travel along
+                    p = {"l": q["l"], "p": q["p"] + p["p"]} if q is not None else None
             used = []
             for l in roots:
                 for rb in sorted(b.normal_blocks()):
